@@ -25,10 +25,6 @@ Lemma len_nil_eqb0 {A} : (len (@nil A) =? 0) = true.
 Proof. reflexivity. Qed.
 Ltac lens := repeat (progress (rewrite ?len_cons_eqb0, ?len_nil_eqb0); cbn).
 
-(* X.pack(self, writer): returns None; the writer afterwards has the model's node appended *)
-Definition packed (self : V) (t : option tag) (ws : list asn1) (n : res asn1) : res (V * list V) :=
-  let* x := n in Ok (VN, [self; VO (OWriter t (ws ++ [x]))]).
-
 Lemma flow_AlgorithmIdentifier_pack fuel a t ws :
   run_mut MW fuel k_flow_AlgorithmIdentifier_pack [VO (OAlg a); VO (OWriter t ws)]
   = packed (VO (OAlg a)) t ws (AlgorithmIdentifier_pack a).
